@@ -6,6 +6,7 @@ import (
 	"reflect"
 	"strconv"
 	"strings"
+	"sync/atomic"
 )
 
 // A generated target type is a small program: a tree of tnodes from which the
@@ -491,7 +492,11 @@ func (g *tgen) structNode(depth int) *tnode {
 	return n
 }
 
-func buildStruct(n *tnode) reflect.Type {
+func buildStruct(n *tnode) reflect.Type { return buildStructAs(n, "validate", altTag, "") }
+
+// buildStructAs declares the vals of the fields under the tag name valsName,
+// their alt validators under altName, and appends extra to every struct tag.
+func buildStructAs(n *tnode, valsName, altName, extra string) reflect.Type {
 	sf := make([]reflect.StructField, len(n.fields))
 	for i, f := range n.fields {
 		f.idx = i
@@ -506,9 +511,12 @@ func buildStruct(n *tnode) reflect.Type {
 			tag += "," + f.mode
 		}
 		full := `config:"` + tag + `"`
-		if len(f.vals) > 0 {
+		render := func(name string, vals []vtag) string {
+			if len(vals) == 0 {
+				return ""
+			}
 			var parts []string
-			for _, v := range f.vals {
+			for _, v := range vals {
 				if v.param != "" {
 					parts = append(parts, v.name+"="+v.param)
 				} else {
@@ -519,8 +527,16 @@ func buildStruct(n *tnode) reflect.Type {
 			if len(f.goName)%2 == 0 {
 				sep = ", "
 			}
-			full += ` validate:"` + strings.Join(parts, sep) + `"`
+			return " " + name + `:"` + strings.Join(parts, sep) + `"`
 		}
+		first, second := render(valsName, f.vals), render(altName, f.alt)
+		if valsName != "validate" {
+			first, second = second, first
+		}
+		if i%3 == 2 {
+			first, second = second, first
+		}
+		full += first + second + extra
 		sf[i] = reflect.StructField{Name: f.goName, Type: f.t.rt, Tag: reflect.StructTag(full)}
 	}
 	return reflect.StructOf(sf)
@@ -631,13 +647,47 @@ func (g *tgen) fieldOf(depth, x int) *tfield {
 		f.vals = g.collVals(15, 15)
 		f.mode = g.mode(12)
 	}
+	if g.twoTags {
+		f.alt = g.altVals(f)
+	}
 	return f
+}
+
+// altVals draws the validators a field declares under altTag: independent of
+// the ones under `validate`, of the same family; one field in four has none.
+func (g *tgen) altVals(f *tfield) []vtag {
+	if f.ignore {
+		return f.vals
+	}
+	if g.r.Intn(4) == 0 {
+		return nil
+	}
+	t := f.t
+	switch {
+	case t.k.scalar():
+		return g.scalarVals(t.k)
+	case t.k == kPtr && t.elem.k.scalar():
+		return g.scalarVals(t.elem.k)
+	case t.k == kSlice, t.k == kMap:
+		return g.collVals(20, 20)
+	case t.k == kArray:
+		return g.collVals(2, 2)
+	case t.k == kIface:
+		if t.elem.k == kInt {
+			return g.collVals(30, 30)
+		}
+		return g.collVals(30, 0)
+	case t.k == kPtr:
+		return g.collVals(25, 0)
+	}
+	return nil
 }
 
 // genType builds one top-level struct type.
 func genType(r *rand.Rand) *tnode {
 	g := &tgen{r: r, budget: 8 + r.Intn(12)}
-	n := &tnode{k: kStruct}
+	g.twoTags = r.Intn(2) == 0
+	n := &tnode{k: kStruct, tag: "validate"}
 	nf := 2 + r.Intn(5)
 	for i := 0; i < nf; i++ {
 		g.budget--
@@ -652,10 +702,11 @@ func genType(r *rand.Rand) *tnode {
 // the wrapper only lets plans, model and walk work as for any other type.
 func genTopColl(r *rand.Rand) *tnode {
 	g := &tgen{r: r, budget: 5 + r.Intn(6)}
+	g.twoTags = r.Intn(2) == 0
 	x := []int{42, 44, 46, 52, 84, 85, 86, 87, 88, 95, 97}[r.Intn(11)]
 	f := g.fieldOf(0, x)
-	f.cfg, f.vals, f.mode = "w", nil, ""
-	n := &tnode{k: kStruct, fields: []*tfield{f}, topColl: true}
+	f.cfg, f.vals, f.alt, f.mode = "w", nil, nil, ""
+	n := &tnode{k: kStruct, fields: []*tfield{f}, topColl: true, tag: "validate"}
 	n.rt = buildStruct(n)
 	return n
 }
@@ -665,4 +716,69 @@ func (t *tnode) String() string {
 		return fmt.Sprint(t.fields[0].t.rt)
 	}
 	return fmt.Sprint(t.rt)
+}
+
+// ---------------------------------------------------------------------------
+// twins: the same type built anew, for telling apart WHY an outcome is wrong
+
+// twinSeq only makes the struct tags of a twin differ from those of every type
+// built before in this process; no verdict depends on its value.
+var twinSeq int64
+
+type twinMaps struct {
+	t map[*tnode]*tnode
+	f map[*tfield]*tfield
+}
+
+// twinType rebuilds the generated structs of a type tree (vals declared under
+// inForce, alt under other) as types go-ucfg has never seen: same fields,
+// names, options and validators, one more (meaningless) key in every struct
+// tag. With onlyInForce the other tag name declares the validators of the tag
+// in force as well (the declarations it had are gone). Hand-written library
+// structs are shared.
+func twinType(top *tnode, inForce, other string, onlyInForce bool) (*tnode, twinMaps) {
+	id := atomic.AddInt64(&twinSeq, 1)
+	m := twinMaps{map[*tnode]*tnode{}, map[*tfield]*tfield{}}
+	extra := ` twin:"` + strconv.FormatInt(id, 10) + `"`
+	var build func(t *tnode) *tnode
+	build = func(t *tnode) *tnode {
+		if t == nil {
+			return nil
+		}
+		if c, ok := m.t[t]; ok {
+			return c
+		}
+		c := *t
+		m.t[t] = &c
+		c.elem = build(t.elem)
+		switch t.k {
+		case kStruct:
+			if t.lib != "" {
+				break
+			}
+			c.fields = nil
+			for _, f := range t.fields {
+				g := *f
+				g.t = build(f.t)
+				if onlyInForce && !f.ignore {
+					g.alt = g.vals
+				}
+				m.f[f] = &g
+				c.fields = append(c.fields, &g)
+			}
+			c.rt = buildStructAs(&c, inForce, other, extra)
+		case kPtr:
+			c.rt = reflect.PtrTo(c.elem.rt)
+		case kSlice:
+			if t.lib == "" {
+				c.rt = reflect.SliceOf(c.elem.rt)
+			}
+		case kArray:
+			c.rt = reflect.ArrayOf(t.alen, c.elem.rt)
+		case kMap:
+			c.rt = reflect.MapOf(tString, c.elem.rt)
+		}
+		return &c
+	}
+	return build(top), m
 }
